@@ -83,10 +83,6 @@ def run_case(case, opts):
             r = rng.random()
             c = None if r < 0.3 else calls_of(ag if r < 0.9 else None, state, rng.random() < p_app)
             members.append(["nop", []] if c is None else [c[0], c[1]])
-        if all(m[0] == "nop" for m in members):
-            c = calls_of(agents[0], state, True)
-            if c:
-                members[0] = [c[0], c[1]]
         return members
 
     def snap():
@@ -101,8 +97,6 @@ def run_case(case, opts):
         if kind == "joint":
             sh = rng.choice(list(states))
             members = joint_for(states[sh])
-            if all(m[0] == "nop" for m in members):
-                continue
             allow = rng.random() < 0.15
             perms = [members]
             for _ in range(2):
@@ -112,7 +106,7 @@ def run_case(case, opts):
                 p = [m for m in p if m[0] != "nop" or rng.random() < 0.5]
                 if rng.random() < 0.5:
                     p.insert(rng.randrange(len(p) + 1), ["nop", []])
-                if any(m[0] != "nop" for m in p):
+                if p:
                     perms.append(p)
             try:
                 from pddl_plus_parser.models import JointActionCall
@@ -137,8 +131,6 @@ def run_case(case, opts):
             plan, cur = [], s0
             for _ in range(rng.randint(1, 4)):
                 members = joint_for(cur, 0.95)
-                if all(m[0] == "nop" for m in members):      # a joint action has at least one member
-                    continue
                 plan.append(members)
                 try:
                     cur = apply_actions(dom, cur, [ActionCall(name=n, grounded_parameters=list(a)) for n, a in members if n != "nop"],
